@@ -142,9 +142,14 @@ Section Assembler.
     | it :: r => '(sm', pc') <- resolve_item cm it sm pc ;; resolve_walk cm r sm' pc'
     end.
 
+  (* source-map bookkeeping of resolve_symbols: `if item == "JUMP": assert i != 0` *)
+  Definition first_is_jump (asm : list item) : bool :=
+    match asm with IOp s :: _ => String.eqb s "JUMP" | _ => false end.
+
   (* returns (symbol_map, const_map) *)
   Definition resolve (asm : list item) : res (list (Z * Z) * list (Z * Z)) :=
     cm <- collect_consts asm [] ;;
+    _ <- (if first_is_jump asm then Err AssertFail else Ok tt) ;;
     '(sm, pc) <- resolve_walk cm asm [] 0 ;;
     sm' <- add_sym sm CODE_END pc ;;
     Ok (sm', cm).
